@@ -66,7 +66,7 @@ func C12(r *core.Run) {
 		Fails                                []c12Fail
 	}
 	spec := in{dir, r.Pick(2, 3)}
-	if r.Degraded() {
+	if r.Degraded() || !inproc.ShimAvailable {
 		spec = in{dir, 1}
 	}
 	run := func(in in, shard, n int, useCLI bool, maxProgs int, o *out) {
@@ -91,7 +91,11 @@ func C12(r *core.Run) {
 		for _, e := range enumEntries(c02Tokens, in.MaxTok) {
 			add(strings.Join(e, "") + "\n")
 		}
-		for _, n := range []int{49, 50, 51, 99, 100, 101, 150} {
+		longs := []int{49, 50, 51, 99, 100, 101, 150}
+		if inproc.CLIMode || !inproc.ShimAvailable {
+			longs = []int{51}
+		}
+		for _, n := range longs {
 			add(strings.Repeat("abcdefghi\"", n/10) + strings.Repeat("z", n%10) + "\n")
 		}
 		for _, t := range []string{`a"@rx b`, `a" \\b`, `"@rx `, `x" \\`, ` a b `, `a$1b`, `^a|b$`, `"`, `\\`, `a"`, `"a`, `" \\" \\`, `"!@rx q" \\`, "id:123456"} {
@@ -190,6 +194,7 @@ func C12(r *core.Run) {
 				}
 				for ei, edited := range edits {
 					i := ei
+					core.Tick()
 					{
 						if edited == regex {
 							continue
